@@ -5,10 +5,17 @@ package main
 // functions (startPortScanEngine with its chunk loop, startPacketScanEngine, afpacket, BPF) run.
 
 import (
+	"crypto/ecdsa"
+	"crypto/elliptic"
+	crand "crypto/rand"
+	"crypto/tls"
+	"crypto/x509"
 	"encoding/hex"
 	"encoding/json"
 	"fmt"
+	"math/big"
 	"net"
+	"net/http"
 	"os"
 	"os/exec"
 	"os/signal"
@@ -44,6 +51,8 @@ type e2eCase struct {
 	Decoy   string     `json:"decoy,omitempty"` // hex key (address, port) of the decoy listener nothing may contact
 	KillMS  int        `json:"kill_ms,omitempty"` // interrupt sx after that long (live mode never ends by itself)
 	SetSem  bool       `json:"set,omitempty"`   // judged as a set: every due key at least once, nothing else
+	Redirect string    `json:"redirect,omitempty"` // the target listeners answer <code>:<Location>
+	TLS     bool       `json:"tls,omitempty"`
 }
 
 // firstCPU is one CPU this process may run on (for taskset).
@@ -151,11 +160,54 @@ func sniff(iface, proto, path string) {
 func listen(ports string, path string) {
 	var mu sync.Mutex
 	var keys [][]byte
-	for _, ps := range strings.Split(ports, ",") {
+	log := func(c net.Conn) {
+		a := c.LocalAddr().(*net.TCPAddr)
+		ip := a.IP.To4()
+		mu.Lock()
+		keys = append(keys, []byte{ip[0], ip[1], ip[2], ip[3], byte(a.Port >> 8), byte(a.Port)})
+		mu.Unlock()
+	}
+	// redirect mode: every port but the last one (the decoy's) is an HTTP(S) server that answers every request with
+	// the given 3xx status and a Location at the decoy
+	code, location := 0, ""
+	if listenRedirect != "" {
+		f := strings.SplitN(listenRedirect, ":", 2)
+		fmt.Sscan(f[0], &code)
+		location = f[1]
+	}
+	plist := strings.Split(ports, ",")
+	for i, ps := range plist {
 		ln, err := net.Listen("tcp4", "0.0.0.0:"+ps)
 		if err != nil {
 			fmt.Fprintln(os.Stderr, err)
 			os.Exit(2)
+		}
+		if code != 0 && i < len(plist)-1 {
+			srv := &http.Server{Handler: http.HandlerFunc(func(w http.ResponseWriter, r *http.Request) {
+				w.Header().Set("Location", location)
+				w.Header().Set("Content-Type", "application/json")
+				w.Header().Set("Api-Version", "1.41")
+				w.WriteHeader(code)
+				if r.Method != "HEAD" {
+					w.Write([]byte(`{"name":"redirecting","ID":"x","version":{"number":"7.0.0"}}`))
+				}
+			}), ConnState: func(c net.Conn, st http.ConnState) {
+				if st == http.StateNew {
+					log(c)
+				}
+			}}
+			if listenTLS {
+				cert, err := selfSigned()
+				if err != nil {
+					fmt.Fprintln(os.Stderr, err)
+					os.Exit(2)
+				}
+				srv.TLSConfig = &tls.Config{Certificates: []tls.Certificate{cert}}
+				go srv.ServeTLS(ln, "", "")
+			} else {
+				go srv.Serve(ln)
+			}
+			continue
 		}
 		go func(ln net.Listener) {
 			for {
@@ -163,11 +215,7 @@ func listen(ports string, path string) {
 				if err != nil {
 					return
 				}
-				a := c.LocalAddr().(*net.TCPAddr)
-				ip := a.IP.To4()
-				mu.Lock()
-				keys = append(keys, []byte{ip[0], ip[1], ip[2], ip[3], byte(a.Port >> 8), byte(a.Port)})
-				mu.Unlock()
+				log(c)
 				c.Close()
 			}
 		}(ln)
@@ -180,6 +228,23 @@ func listen(ports string, path string) {
 	mu.Lock()
 	os.WriteFile(path, []byte(sortKeys(keys)), 0o644)
 	mu.Unlock()
+}
+
+var listenRedirect string
+var listenTLS bool
+
+func selfSigned() (tls.Certificate, error) {
+	key, err := ecdsa.GenerateKey(elliptic.P256(), crand.Reader)
+	if err != nil {
+		return tls.Certificate{}, err
+	}
+	tpl := &x509.Certificate{SerialNumber: big.NewInt(1), NotBefore: time.Now().Add(-time.Hour), NotAfter: time.Now().Add(time.Hour),
+		KeyUsage: x509.KeyUsageDigitalSignature, ExtKeyUsage: []x509.ExtKeyUsage{x509.ExtKeyUsageServerAuth}}
+	der, err := x509.CreateCertificate(crand.Reader, tpl, tpl, &key.PublicKey, key)
+	if err != nil {
+		return tls.Certificate{}, err
+	}
+	return tls.Certificate{Certificate: [][]byte{der}, PrivateKey: key}, nil
 }
 
 func sh(args ...string) error {
@@ -220,7 +285,14 @@ func runE2E(sx string, c *e2eCase, idx int) {
 				return
 			}
 		}
-		sn = exec.Command("ip", "netns", "exec", ns, os.Args[0], "-listen", strings.TrimPrefix(c.Proto, "listen:"), "-out", frames)
+		largs := []string{"netns", "exec", ns, os.Args[0], "-listen", strings.TrimPrefix(c.Proto, "listen:"), "-out", frames}
+		if c.Redirect != "" {
+			largs = append(largs, "-redirect", c.Redirect)
+			if c.TLS {
+				largs = append(largs, "-tls")
+			}
+		}
+		sn = exec.Command("ip", largs...)
 	}
 	so, _ := sn.StdoutPipe()
 	sn.Stderr = os.Stderr
@@ -608,6 +680,33 @@ func refusedCases(r *hlib.SplitMix64, n int) []e2eCase {
 	for _, ce := range envQuick {
 		mkEnv(appCmds[ce[0]], envNames[ce[1]])
 	}
+	// targets that answer every request with a redirect to the decoy: the scan must not follow it
+	mkRedirect := func(c []string, code int) {
+		port := 0
+		fmt.Sscan(c[len(c)-1], &port)
+		var loc []string
+		var addrs []uint32
+		for j := uint32(0); j < 2; j++ {
+			addrs = append(addrs, ta+j)
+			loc = append(loc, tgt.Dotted(ta+j))
+		}
+		loc = append(loc, tgt.Dotted(decoy))
+		https := len(c) > 3
+		scheme, name := "http", c[0]
+		if https {
+			scheme, name = "https", c[0]+"-https"
+		}
+		argv := append(append([]string{}, c...), "--exit-delay", "100ms", "-t", "600ms", "-w", "2", tgt.Dotted(ta)+"/31")
+		w := crossWant(addrs, []int{port})
+		cs = append(cs, e2eCase{Kind: "e2e", Class: "redirect:" + name, Proto: fmt.Sprintf("listen:%d,9999", port), Argv: argv, Want: w, NWant: len(w),
+			Opt: fmt.Sprint(code), Local: strings.Join(loc, ","), SetSem: true, Redirect: fmt.Sprintf("%d:%s://%s/", code, scheme, dk), TLS: https,
+			Decoy: hex.EncodeToString([]byte{byte(decoy >> 24), byte(decoy >> 16), byte(decoy >> 8), byte(decoy), 0x27, 0x0f}), Seed: int64(len(cs))})
+	}
+	httpCmds := []int{0, 1, 3, 4}
+	codes := []int{301, 302, 307, 308}
+	for i, ci := range httpCmds {
+		mkRedirect(appCmds[ci], codes[i])
+	}
 	// arp in live mode with an exclusion list: the first passes are observed, then the scan is interrupted
 	mkLive := func(opt string) {
 		var addrs []uint32
@@ -633,6 +732,11 @@ func refusedCases(r *hlib.SplitMix64, n int) []e2eCase {
 		}
 		mkLive("srcmac")
 		mkLive("rate")
+		for _, ci := range httpCmds {
+			for _, code := range codes {
+				mkRedirect(appCmds[ci], code)
+			}
+		}
 		for _, c := range pk {
 			for _, opt := range optNames {
 				for _, bad := range badKinds {
